@@ -730,6 +730,56 @@ func c17PullRefusedArms(c *fw.Ctx, i int) {
 	e.monitor()
 }
 
+
+// c17PullRefusedWhileAttached: a second start_relay_pull (other url, retry budget 0, auto-stop
+// "immediately") while an API pull is attached is answered with an error. An error answer reports
+// that nothing happened: the attached pull goes on under its own settings (never auto-stop, here
+// with no consumer at all) and no connection is ever made to the refused call's url.
+func c17PullRefusedWhileAttached(c *fw.Ctx, i int) {
+	e := c17Start(c, i, false, nil)
+	if e == nil {
+		return
+	}
+	defer e.stop()
+	e.desc = "a second start_relay_pull (other url, auto-stop 0) is refused while a pull is attached"
+	c.Describe("%s", e.desc)
+	c.Cell("pull/refused-start-while-attached")
+	other, err := ref.NewRtmpStub(nil)
+	if err != nil {
+		c.Inconclusive("second origin: %v", err)
+		return
+	}
+	defer other.Close()
+	from := e.s.Notify.Len()
+	a := e.apiStart(-1, -1)
+	if !a.Ok {
+		c.Violate("pull-api/start-refused", "start_relay_pull on an idle stream answered failure\n"+e.trace(), nil)
+		return
+	}
+	if _, ok := e.s.Notify.Wait(4*time.Second, from, func(ev srv.Event) bool { return ev.Kind == "pull_start" && ev.SessionId == a.Sid }); !ok {
+		c.Inconclusive("the first pull did not attach\n%s", e.trace())
+		return
+	}
+	b, _ := json.Marshal(map[string]interface{}{"url": "rtmp://" + other.Addr + "/live/" + e.name, "stream_name": e.name, "pull_retry_num": 0, "auto_stop_pull_after_no_out_ms": 0, "pull_timeout_ms": 5000})
+	_, resp, _ := srv.HttpPostJson(e.s.ApiAddr(), "/api/ctrl/start_relay_pull", string(b), 3*time.Second)
+	e.logf("second start (other url, retry 0, auto-stop 0) → %s", trunc(string(resp), 160))
+	c.Eval(1)
+	if strings.Contains(string(resp), `"error_code":0`) {
+		c.Violate("pull-api/start-accepted-with-input", "start_relay_pull answered success although a relay pull is the stream's input\n"+e.trace(), nil)
+		return
+	}
+	// four ticks: the attached pull stays (nobody stopped it; its own auto-stop setting is "never")
+	_, stopped := e.s.Notify.Wait(4*c17Tick+c17Slack, from, func(ev srv.Event) bool { return ev.Kind == "pull_stop" && ev.SessionId == a.Sid })
+	c.Count("refused_start_while_attached_judged", 1)
+	if stopped {
+		c.Violate("pull-api/refused-start-changed-the-attached-pull", "a start_relay_pull that was answered with an error (a pull is attached) replaced the attached pull's settings: the pull, started with auto-stop 'never', was stopped within four ticks under the refused call's auto-stop 0\n"+e.trace(), nil)
+	}
+	if n := len(other.Snapshot()); n > 0 {
+		c.Violate("pull-api/refused-start-changed-the-attached-pull", fmt.Sprintf("a start_relay_pull that was answered with an error still made lal connect to its url (%d connections)\n%s", n, e.trace()), nil)
+	}
+	e.apiStop()
+}
+
 // c17PullSlowAlone: an API pull (retry for ever, never auto-stop) towards an origin that accepts the
 // connection and then stays silent, with nobody else on the stream. The attempt runs until its own
 // timeout (5 s) - nothing in the rules ends it earlier - and, the budget being unlimited, is
@@ -1180,6 +1230,7 @@ func init() {
 	}
 	cat = append(cat, sc{"refused-arms", c17PullRefusedArms})
 	cat = append(cat, sc{"slow-alone", c17PullSlowAlone})
+	cat = append(cat, sc{"refused-while-attached", c17PullRefusedWhileAttached})
 	cat = append(cat, sc{"overtaken", func(c *fw.Ctx, i int) { c17PullOvertaken(c, i, false) }}, sc{"overtaken-static", func(c *fw.Ctx, i int) { c17PullOvertaken(c, i, true) }})
 	cat = append(cat, sc{"kick", func(c *fw.Ctx, i int) { c17PullKick(c, i, false) }}, sc{"kick-static", func(c *fw.Ctx, i int) { c17PullKick(c, i, true) }})
 	for _, p := range []struct {
